@@ -128,7 +128,8 @@ class Theory:
 
 
 class FnSpec:
-    def __init__(self, relfile, qualname, fn, label=None, trusted=False, external=False, cls=None, name=None, why_trusted=None, hints=None, modifies=None):
+    def __init__(self, relfile, qualname, fn, label=None, trusted=False, external=False, cls=None, name=None, why_trusted=None, hints=None, modifies=None, inout=None):
+        self.static_inout = inout  # names of the parameters the function mutates in place for its caller (see FnCtx.inout)
         self.static_modifies = modifies  # heap fields the function may modify, declared statically (None: unknown)
         self.relfile, self.qualname, self.fn, self.label = relfile, qualname, fn, label
         self.hints = hints  # names of the lemmas whose closed forms this function's VCs may use (None: all)
@@ -394,6 +395,7 @@ class FnCtx:
         self.yield_type = None
         self.mutated_params = set()
         self.call_exceptions = []
+        self._inout_targets = []
 
     # ---------------------------------------------------------------- signature
     def _signature(self):
@@ -453,8 +455,10 @@ class FnCtx:
                 pass  # live-in variables of a statement range: locals of the enclosing function
             elif isinstance(v, (MapV, SeqV, SetV)):
                 v.owner = name  # the caller's container (see Exec.note_mutation / mutates)
+                self.ex.owned_values[name] = v
             elif isinstance(v, OptV) and isinstance(v.val, (MapV, SeqV, SetV)):
                 v.val.owner = name
+                self.ex.owned_values[name] = v.val
         else:
             if self._bound is None:
                 self._bound = self._bind_actuals()
@@ -607,6 +611,27 @@ class FnCtx:
                 if owner is not None and owner not in self.ex.fctx.mutated_params:
                     self.ex.oblige(f"{self.ex.qualname}/frame.parameter_{owner}_is_not_mutated@{self._line()}", z3.BoolVal(False), "frame", getattr(self.node, "lineno", None))
 
+    def inout(self, name, typ):
+        """The (container) parameter `name` is mutated in place and the caller keeps using it: at a call
+        the variable the caller passed is re-bound to a fresh final value (returned here, to be described
+        by postconditions); when verifying, the final value is the parameter variable at the return
+        (`c.final(name)` inside postconditions)."""
+        self.mutated_params.add(name)
+        if self.mode != "call":
+            return None
+        new = typ.fresh(self.spec.name + "." + name + ".final")
+        for ax in wf_axioms(new):
+            self.ex.assume(ax)
+        self._inout_targets.append((name, new))
+        return new
+
+    def final(self, name):
+        """The caller's container handed in as parameter `name`, as it is at the return (verify mode): the
+        last value that still IS the caller's object -- not whatever the parameter NAME is bound to then
+        (`p = list(p)` re-binds the name to a private copy; later mutations of that copy are not seen by
+        the caller)."""
+        return self.ex.owned_values[name]
+
     def result(self, typ):
         self.result_type = typ
         if self.mode == "call":
@@ -707,6 +732,27 @@ class FnCtx:
                     self.ex.assume(when())
                 self.ex.prune_if_infeasible()
                 raise RaiseEx(exc, getattr(self.node, "lineno", 0))
+        # in-out parameters: re-bind the caller's variable to the final value
+        for name, new in self._inout_targets:
+            node = self.node
+            argn = None
+            sig = self._signature()
+            if sig is not None and node is not None:
+                params = sig[0]
+                recv_off = 1 if (isinstance(node.func, ast.Attribute) and params and params[0] == "self") else 0
+                if name in params:
+                    pos = params.index(name) - recv_off
+                    if 0 <= pos < len(node.args):
+                        argn = node.args[pos]
+                for kw in node.keywords:
+                    if kw.arg == name:
+                        argn = kw.value
+            if isinstance(argn, ast.Name):
+                cur = self.ex.env.get(argn.id)
+                self.ex.note_mutation(cur.val if isinstance(cur, OptV) else cur, new)
+                self.ex.env.mutate(argn.id, new)
+            elif argn is not None and not isinstance(argn, ast.Call):
+                raise Unsupported(f"in-out argument {name} of {self.spec.qualname} is not a plain variable or a fresh value")
         return self.res if self.res is not None else NONE
 
 
